@@ -103,6 +103,16 @@ Definition lookup_under (name cond def : string) : bool :=
   existsb (fun l => String.eqb (c_cache l) name && c_returns l &&
                     match c_conds l, c_defs l with [c], [d] => String.eqb c cond && String.eqb d def | _, _ => false end) G_CACHE_LOOKUPS.
 
+(* ---- (4) the id generators `loop { index += 1; let id = name(index); if !taken.contains(id) { return id } }`
+   (converter.rs gen_*_id, filter.rs gen_result): `taken` = the indices whose name is in the set of used ids (names are
+   injective in the index: prefix + decimal number; the hash set of converter.rs is read as a set of names).
+   Result: the id and the fuel that was left. ---- *)
+Fixpoint gen_id (taken : list N) (fuel : nat) (n : N) : option (N * nat) :=
+  match fuel with
+  | O => None
+  | S f => let n' := N.succ n in if memN n' taken then gen_id taken f n' else Some (n', fuel)
+  end.
+
 (* ---- loop ledger types ---- *)
 Inductive lterm := LVisited | LFinder | LCounter (why : string) | LGenId | LOwned | LReviewed (why : string).
 Definition shape_ok (s : lshape) (t : lterm) : bool :=
@@ -110,9 +120,36 @@ Definition shape_ok (s : lshape) (t : lterm) : bool :=
   | LVisited, SVisitedWalk _ | LFinder, SFinder | LCounter _, SCounter | LGenId, SGenId | LOwned, SOwnedTree | LReviewed _, _ => true
   | _, _ => false
   end.
-Definition proved_term (t : lterm) : bool := match t with LVisited | LFinder => true | _ => false end.
+Definition proved_term (t : lterm) : bool := match t with LVisited | LFinder | LGenId => true | _ => false end.
 Definition loop_key_eqb (l : loop_site) (e : string * string * string * string * lterm) : bool :=
   match e with (f, g, h, d, _) => String.eqb f (l_file l) && String.eqb g (l_fn l) && String.eqb h (l_header l) && String.eqb d (l_digest l) end.
 Definition loop_discharged_by (ledger : list (string * string * string * string * lterm)) (l : loop_site) : bool :=
   existsb (fun e => loop_key_eqb l e && shape_ok (l_shape l) (snd e) && implb (l_links l) (proved_term (snd e))) ledger.
 Definition loop_entry_live (e : string * string * string * string * lterm) : bool := existsb (fun l => loop_key_eqb l e) parser_loops.
+
+(* ---- recursion ledger types: one entry per recursive group of Gen/Totality.v `parser_recursions` (keyed by the digest of its
+   member list, so a function that joins a group makes the entry stale) ---- *)
+Inductive rterm :=
+  | RDepthProved                (* svgtree construction: depth counter against DEPTH_LIMIT, Proofs/SvgBuild.v build_inv *)
+  | RGuarded (why : string)     (* explicit measure: depth limit / in-progress stack / node budget / marker instance limit *)
+  | RStructural (why : string)  (* recursion over an owned finite tree - NOT PROVED *)
+  | RNameClash                  (* calls are matched by name: a field, trait method or method of another type - not recursive *)
+  | RReviewed (why : string).   (* read and argued informally - NOT PROVED *)
+(* a group that follows reference attributes must not be filed as structural / reviewed: it needs a measure (or the finding that
+   it is not a recursion at all) *)
+Definition has_measure (t : rterm) : bool := match t with RDepthProved | RGuarded _ | RNameClash => true | _ => false end.
+Definition rec_discharged_by (ledger : list (string * rterm)) (r : rec_site) : bool :=
+  existsb (fun e => String.eqb (fst e) (r_digest r) && implb (r_links r) (has_measure (snd e))) ledger.
+Definition rec_entry_live (e : string * rterm) : bool := existsb (fun r => String.eqb (fst e) (r_digest r)) parser_recursions.
+
+(* ---- iterator ledger: a `for` loop ends when its iterator does (the borrow checker forbids growing the collection inside the
+   loop); std iterators over finite collections end unless they come from a source of parser_unbounded_sources ---- *)
+Inductive iterm :=
+  | IHrefProved                 (* HrefIter: Proofs/Links.v href_iter_bounded (Props C01_href_iter_bounded), tie in gen_links.py *)
+  | ITree (why : string)        (* walks the svgtree arena along parent / sibling / child ids - NOT PROVED *)
+  | IReviewed (why : string).
+Definition iter_key_eqb (a : string * string * string) (e : string * string * string * iterm) : bool :=
+  match a, e with (f, t, d), (f', t', d', _) => String.eqb f f' && String.eqb t t' && String.eqb d d' end.
+Definition iter_discharged_by (ledger : list (string * string * string * iterm)) (a : string * string * string) : bool :=
+  existsb (iter_key_eqb a) ledger.
+Definition iter_entry_live (e : string * string * string * iterm) : bool := existsb (fun a => iter_key_eqb a e) parser_iterators.
